@@ -264,6 +264,10 @@ class MetadataGenerator:
                 while Null in types:
                     types.remove(Null)
 
+            if not types:
+                # Only Unknown and Null were given (i.e. [] and [null] in the same field)
+                return Null
+
             meta_type = DUnion(*types)
             if len(meta_type.types) == 1:
                 meta_type = meta_type.types[0]
